@@ -78,6 +78,12 @@ def reverse_iter_lines(file_obj, blocksize=DEFAULT_BLOCKSIZE, preseek=True, enco
         # BytesIO
         encoding = None
 
+    # a byte order mark is skipped at the start of the file only, not
+    # at the start of every line that is decoded on its own below
+    skip_bom = False
+    if encoding and encoding.lower().replace('_', '-') == 'utf-8-sig':
+        encoding, skip_bom = 'utf-8', True
+
     # need orig_obj to keep alive otherwise __del__ on the TextWrapper will close the file
     orig_obj = file_obj
     try:
@@ -113,6 +119,8 @@ def reverse_iter_lines(file_obj, blocksize=DEFAULT_BLOCKSIZE, preseek=True, enco
         buff = lines[0]
     if not at_end and buff[-1:] == b'\r':
         buff = buff[:-1]
+    if skip_bom and buff[:3] == b'\xef\xbb\xbf':
+        buff = buff[3:]
     yield buff.decode(encoding) if encoding else buff
 
 
